@@ -227,6 +227,8 @@ class FilterSummary:
                 nd = self._single_def(name, s)
                 if isinstance(nd, ast.Call) and call_name(nd) == "np.sort" and nd.args:
                     sorted_ = True
+                    if isinstance(nd.args[0], ast.Name) and self._unique_source(nd.args[0], s) is not None:
+                        u = self._unique_source(nd.args[0], s)  # rows = np.sort(idx); X[rows]
                     nd = nd.args[0] if not isinstance(nd.args[0], ast.Name) else self._single_def(nd.args[0], s)
                 if isinstance(nd, ast.Subscript) and isinstance(nd.value, ast.Name):
                     sub = nd
